@@ -2,6 +2,7 @@ import TempestVerif.Drv.Util
 import TempestVerif.Model.FS
 import TempestVerif.Model.Checkpoint
 import TempestVerif.Gen.Checkpoint
+import TempestVerif.Gen.CheckpointSM
 /- line-protocol handlers of property C08 (checkpoints).
 
    fs.crash proto=<direct|temprename> old=<none|bytes> payload=<bytes>
@@ -10,7 +11,14 @@ import TempestVerif.Gen.Checkpoint
    fs.classify ops=<op;op;…> final=<name>      ops: mkdir:p open:p write:p:N flush:p fsync:p close:p rename:p:q
        → direct | temprename | none
    fs.shape ops=<op;op;…>                      → the trace with payloads forgotten and runs of writes merged (same syntax, no sizes)
-   fs.gen                                      → shape=<generated saveOps> class=<…> load=<method> final=<0|1> pool=<0|1>
+   fs.gen                                      → shape=<generated saveOps> class=<…> load=<method> final=<0|1> pool=<0|1> smshape= smclass= smload= smtmp= smrename= smparents=
+   fs.smtmp dir=<d|-> stem=<s> suffix=<.x|->   → tmp=<temporary name of StateManager.save_state> final=<path> same=<0|1>
+   fs.smcrash dir= stem= suffix= old=<none|bytes> tmpold=<none|bytes> payload=<bytes>
+       → crash contents under the final name of the program extracted from StateManager.save_state (format of fs.crash)
+   sm.load [bcur= bhist=] bndim=<n> cur=<…|absent> hist=<…|absent> ndim=<n|absent> exclude=<k,k|->
+       → `load_state` of the file written by `save_state(exclude)` (sections may also be absent outright) into the manager
+         (bcur,bhist,bndim), or into a fresh `StateManager(bndim)` when bcur/bhist are not given; format of ckpt.roundtrip
+   sm.fromdict cur=<…|absent> hist=<…|absent> ndim=<n|absent>   → `StateManager.from_dict(d)`
    ckpt.roundtrip cur=<k:v,…> hist=<k:v/v/…,…> ndim=<n>
        → `load fresh (save s)` through the model: cur=<…> hist=<…> ndim=<n>   (keys sorted)   or `error`
          values: N (None)  i<int>  r<bits>  a<tag>;   an empty history list is `k:-`
@@ -153,8 +161,73 @@ def parseIters? (s : String) : Option (List StepIn) :=
 
 end ckpt
 
+def dashEmpty (s : String) : String := if s == "-" then "" else s
+
+def parsePName? (args : List (String × String)) : Option Model.FS.PName :=
+  match getArg args "dir", getArg args "stem", getArg args "suffix" with
+  | some d, some st, some x => some ⟨dashEmpty d, st, dashEmpty x⟩
+  | _, _, _ => none
+
+def parseOptBytes? (s : Option String) : Option (Option Model.FS.Bytes) :=
+  match s with
+  | some "none" => some none
+  | some s => (parseBytes? s).map some
+  | none => none
+
+/-- a section of the pickled dictionary: `absent`, or its content -/
+def parseSection? {β : Type} (f : String → Option β) (s : Option String) : Option (Option β) :=
+  match s with
+  | some "absent" => some none
+  | some s => (f s).map some
+  | none => none
+
+def parseDict? (args : List (String × String)) : Option Model.Checkpoint.Dict :=
+  match parseSection? parseCur? (getArg args "cur"), parseSection? parseHist? (getArg args "hist"),
+        parseSection? String.toNat? (getArg args "ndim") with
+  | some c, some h, some n => some { cur := c, hist := h, nDim := n }
+  | _, _, _ => none
+
+/-- temporary name of StateManager.save_state as the extracted naming kind says: "append" = final ++ suffix (current code),
+    anything else = the pre-fix `with_suffix` (suffix replaced) -/
+def smTmp (n : Model.FS.PName) : Model.FS.Path :=
+  if Gen.Checkpoint.smTmpNameKind == "append" then n.path ++ Gen.Checkpoint.smTmpSuffix
+  else n.withSuffix Gen.Checkpoint.smTmpSuffix
+
 def handle (cmd : String) (args : List (String × String)) : Option String :=
   match cmd with
+  | "fs.smtmp" =>
+    match parsePName? args with
+    | some n =>
+      let t := smTmp n
+      some s!"tmp={t} final={n.path} same={showBool (t == n.path)}"
+    | none => some "bad-op"
+  | "fs.smcrash" =>
+    match parsePName? args, parseOptBytes? (getArg args "old"), parseOptBytes? (getArg args "tmpold"), (getArg args "payload").bind parseBytes? with
+    | some n, some old, some tmpold, some payload =>
+      let t := smTmp n
+      let fs0 : Model.FS.FS := (match old with | some b => [(n.path, b)] | none => []) ++
+        (match tmpold with | some b => (if t == n.path then [] else [(t, b)]) | none => [])
+      let ops := Model.FS.instantiate n.dir t n.path payload Gen.Checkpoint.stateManagerSave
+      some ("|".intercalate ((canonical ((Model.FS.crashStates ops fs0).map (Model.FS.lookup n.path))).map showContent))
+    | _, _, _, _ => some "bad-op"
+  | "sm.load" =>
+    match parseDict? args, (getArg args "bndim").bind String.toNat?, (getArg args "exclude").bind (parseList? some) with
+    | some d, some bn, some ex =>
+      let base? : Option Model.Checkpoint.State :=
+        match getArg args "bcur", getArg args "bhist" with
+        | none, none => some (Model.Checkpoint.init bn)
+        | some c, some h => match parseCur? c, parseHist? h with
+          | some c, some h => some { current := c, history := h, nDim := bn }
+          | _, _ => none
+        | _, _ => none
+      match base? with
+      | some base => some (showState (Model.Checkpoint.updateFromDict base (Model.Checkpoint.excludeDict ex d)))
+      | none => some "bad-op"
+    | _, _, _ => some "bad-op"
+  | "sm.fromdict" =>
+    match parseDict? args with
+    | some d => some (showState (Model.Checkpoint.fromDict d))
+    | none => some "bad-op"
   | "fs.crash" =>
     let old? : Option (Option Model.FS.Bytes) := match getArg args "old" with
       | some "none" => some none
@@ -172,7 +245,7 @@ def handle (cmd : String) (args : List (String × String)) : Option String :=
     | some ops => some (showShape (Model.FS.mergeWrites (Model.FS.shapeOf ops)))
     | none => some "bad-op"
   | "fs.gen" =>
-    some s!"shape={showShape (Model.FS.mergeWrites Gen.Checkpoint.saveOps)} class={showProto (Model.FS.classify Gen.Checkpoint.saveOps "final")} load={Gen.Checkpoint.loadMethod} final={showBool Gen.Checkpoint.finalSave} pool={showBool (Gen.Checkpoint.poolDetached && Gen.Checkpoint.poolReattachInFinally)}"
+    some s!"shape={showShape (Model.FS.mergeWrites Gen.Checkpoint.saveOps)} class={showProto (Model.FS.classify Gen.Checkpoint.saveOps "final")} load={Gen.Checkpoint.loadMethod} final={showBool Gen.Checkpoint.finalSave} pool={showBool (Gen.Checkpoint.poolDetached && Gen.Checkpoint.poolReattachInFinally)} smshape={showShape (Model.FS.mergeWrites Gen.Checkpoint.stateManagerSave)} smclass={showProto (Model.FS.classify Gen.Checkpoint.stateManagerSave "final")} smload={Gen.Checkpoint.smLoadMethod} smtmp={Gen.Checkpoint.smTmpNameKind}:{Gen.Checkpoint.smTmpSuffix} smrename={Gen.Checkpoint.smRenameCall} smparents={showBool Gen.Checkpoint.smMkdirParents}"
   | "ckpt.roundtrip" =>
     match parseState? args with
     | some s =>
